@@ -16,7 +16,7 @@ import re
 # Constructs that are not "built-in operators, functions and macros" of the CEL language
 # definition (extension libraries of cel-go's conformance suite, or this interpreter's own
 # non-CEL extras): the property does not rule on them -> counted, not compared.
-EXTENSION = re.compile(r"\.reduce\(|\.min\(\)|\bcel\.(block|iterVar|index|bind)\b|\boptional\.|\boptional_type\b|\.(all|exists|exists_one|existsOne|map|filter|transformList|transformMap|transformMapEntry)\(\s*\w+\s*,\s*\w+\s*,")
+EXTENSION = re.compile(r"\.reduce\(|\.min\(|\bcel\.(block|iterVar|index|bind)\b|\boptional\.|\boptional_type\b|\.(all|exists|exists_one|existsOne|map|filter|transformList|transformMap|transformMapEntry)\(\s*\w+\s*,\s*\w+\s*,")
 
 
 def corpus_class(text):
@@ -58,7 +58,7 @@ def run(ctx):
             _sp, idx, text, term, package, bsrc = it
             actnames = ["own"] if bsrc is not None else gen.ACT_NAMES
             for an, a, b in zip(actnames, oi, oc):
-                unspec = term is None and EXTENSION.search(text) is not None
+                unspec = EXTENSION.search(text) is not None   # corpus and generated texts alike
                 part.case(nontrivial=not unspec)
                 part.outcome(lab(a))
                 if unspec or not diverges(a, b):
@@ -95,6 +95,19 @@ def run(ctx):
                     if pi[0] == "V" and pc[0] == "V" and pi[3] != pc[3]:
                         cause_text, via_class = HAS_PROBE, True
                         cause_term = ("has", gen.var("map"), "a")
+                arg_error = False
+                if not via_class and cause_term is not None and cause_term[0] in ("call", "meth") and a[0] == "E" and b[0] == "V":
+                    for s_ in _table.subterms(cause_term):
+                        st = gen.text(s_)
+                        if st in by_text and by_text[st][0][ai_][0] == "E" and by_text[st][1][ai_][0] == "E":
+                            arg_error = True
+                if arg_error:
+                    # one root cause: a function that RETURNS an error object (matches() with a bad pattern, `in`)
+                    # is an argument of another function, which the compiled runner calls with that object
+                    sig = "diverge:compiled-passes-error-value-as-argument"
+                    part.violation("diverge", sig, {"expr": text, "activation": an, "package": package, "bindings_src": bsrc, "space": sp, "index": idx},
+                                   f"{text!r} under activation {an!r}: interpreted {outcome.short(a)}, compiled {outcome.short(b)}: the argument is an error, the compiled runner still calls the function")
+                    continue
                 if via_class:
                     ai, ac = by_text[cause_text][0][ai_], by_text[cause_text][1][ai_]
                     if cause_text == HAS_PROBE:
